@@ -144,7 +144,10 @@ func (s *Scope) Get(sym Symbol) Object {
 
 func (s *Scope) get(name string) Object {
 	if pkg, vname, private := UnpackName(name); pkg != nil {
-		if vv := pkg.GetVarVal(vname); vv != nil && (vv.Export || private) {
+		// pkg:name is for what pkg itself exports only, pkg::name for
+		// anything visible in pkg.
+		if vv := pkg.GetVarVal(vname); vv != nil &&
+			(private || (vv.Export && (vv.Pkg == pkg || vv.Pkg == nil || pkg.Imports[vname] != nil))) {
 			if value := vv.Value(); value != Unbound {
 				return value
 			}
